@@ -440,6 +440,8 @@ func textVariants(text string, full bool) []string {
 			}
 			nl := append(append(append([]string{}, lines[:i]...), ins), lines[i:]...)
 			out = append(out, join(nl))
+			// the same with CRLF line ends (a blank line is then a lone CR before the LF)
+			out = append(out, strings.ReplaceAll(join(nl), "\n", "\r\n"))
 		}
 	}
 	// attribute permutations and an unknown attribute at every position
@@ -925,7 +927,7 @@ func corpusTexts() []string {
 	return out
 }
 
-var c15Alphabet = []byte{'\n', ',', '=', '"', '#', ':', '0', '-', '.', 'x', '@', '\r', 0x00, 0xff}
+var c15Alphabet = []byte{'\n', ',', '=', '"', '#', ':', '0', '-', '.', 'x', '@', '\r', ' ', '\t', 0x00, 0xff}
 
 func c15List(tier string) []vh.Scenario {
 	out := []vh.Scenario{}
@@ -1079,6 +1081,14 @@ func mutateAll(text string, f func(string) bool) {
 		if !f(strings.Join(del, "\n")) || !f(strings.Join(dup, "\n")) {
 			return
 		}
+		// the line replaced by white space only
+		for _, ws := range []string{" ", "\t ", "\r"} {
+			rp := append([]string{}, lines...)
+			rp[i] = ws
+			if !f(strings.Join(rp, "\n")) {
+				return
+			}
+		}
 		if i+1 < len(lines) {
 			sw := append([]string{}, lines...)
 			sw[i], sw[i+1] = sw[i+1], sw[i]
@@ -1094,7 +1104,7 @@ var c15Menu = []string{
 	"#EXT-X-VERSION:3", "#EXT-X-TARGETDURATION:2", "#EXT-X-TARGETDURATION:0", "#EXTINF:2,", "#EXTINF:0,", "#EXTINF:,", "seg.ts", "",
 	"#EXT-X-PART:DURATION=1,URI=\"p.mp4\"", "#EXT-X-PART:DURATION=0,URI=\"p.mp4\"", "#EXT-X-PART:URI=\"\"", "#EXT-X-PART-INF:PART-TARGET=0",
 	"#EXT-X-MAP:URI=\"\"", "#EXT-X-PRELOAD-HINT:TYPE=PART,URI=\"\"", "#EXT-X-STREAM-INF:BANDWIDTH=1,CODECS=\"a\"", "#EXT-X-STREAM-INF:BANDWIDTH=1",
-	"#EXT-X-MEDIA:TYPE=AUDIO,GROUP-ID=\"\"", "#EXT-X-MEDIA:TYPE=X,GROUP-ID=\"g\"", "#EXT-X-MEDIA:GROUP-ID=\"g\",NAME=\"n\"", "#EXT-X-KEY:METHOD=AES-128", "#EXT-X-BYTERANGE:1@", "#EXT-X-ENDLIST",
+	"#EXT-X-MEDIA:TYPE=AUDIO,GROUP-ID=\"\"", "#EXT-X-MEDIA:TYPE=X,GROUP-ID=\"g\"", "#EXT-X-MEDIA:GROUP-ID=\"g\",NAME=\"n\"", "#EXT-X-KEY:METHOD=AES-128", "#EXT-X-BYTERANGE:1@", "#EXT-X-ENDLIST", "\t ",
 }
 
 func c15Run(c *vh.Ctx) {
